@@ -112,7 +112,8 @@ func init() {
 	Register(&PropDef{
 		ID: "C02", Level: "model_checking", Contracts: "default", DesignRef: "DESIGN.md 5 (C02)",
 		Jobs: func(tier string) []*sym.Job {
-			o := obl("C02.", "C14.value", "C20.value", "C20.setmantexp", "C03.acc")
+			// the value obligations run first on each path: the accuracy proof builds on them
+			o := obl("C01.", "C02.", "C14.value", "C20.value", "C20.setmantexp", "C03.")
 			jobs := arithJobs(tier, o, false)
 			for which := 0; which <= 2; which++ {
 				jobs = append(jobs, J("H_C14_setint64", o, "which", which, "p", 0), J("H_C14_setint64", o, "which", which, "p", 5))
